@@ -14,7 +14,7 @@ pub fn def() -> CheckDef {
         meta: CheckMeta {
             id: "C12",
             level: "fault_enumeration",
-            rule: "files after n = 0..N commits (N = 6 quick / 16 thorough) of generated histories; target = newest or older header page; damage = every offset of the header page x {xor 0xFF, xor 0x01, set 0, one seeded value} (thorough: all 255 alternatives on every byte the format defines: offset 8 and 32-43, 48-103), zeroing the page, every word-aligned range of the first 128 bytes zeroed (and short ranges / ranges to the end set to 0xFF), seeded multi-byte overwrites inside and outside the record, and tails from every 8-byte boundary filled with zeros / 0xFF / seeded bytes / the page's previous contents (a partially written header). Damages that leave the bytes unchanged are skipped. Oracle: opening a copy through the public API succeeds (no panic) and a full dump equals the state recorded by the intact header (S_n if the older header was hit, S_{n-1} if the newest was) whenever a byte the format defines changed; if only undefined bytes changed (page-header id/count/overflow, padding, bytes past the record) either state is accepted. Non-trivial = damage that changes a defined byte of the NEWEST header of a file whose last commit changed the state. Distinct = (file, target, damage).",
+            rule: "files after n = 0..N commits (N = 6 quick / 16 thorough) of generated histories (page sizes 1024, 4096 and, in one shard of eight, 5000 from a 4-page file, i.e. grown to a length that is not a whole number of pages); target = newest or older header page; damage = every offset of the header page x {xor 0xFF, xor 0x01, set 0, one seeded value} (thorough: all 255 alternatives on every byte the format defines: offset 8 and 32-43, 48-103), zeroing the page, every word-aligned range of the first 128 bytes zeroed (and short ranges / ranges to the end set to 0xFF), seeded multi-byte overwrites inside and outside the record, and tails from every 8-byte boundary filled with zeros / 0xFF / seeded bytes / the page's previous contents (a partially written header). Damages that leave the bytes unchanged are skipped. Oracle: opening a copy through the public API succeeds (no panic) and a full dump equals the state recorded by the intact header (S_n if the older header was hit, S_{n-1} if the newest was) whenever a byte the format defines changed; if only undefined bytes changed (page-header id/count/overflow, padding, bytes past the record) either state is accepted. Non-trivial = damage that changes a defined byte of the NEWEST header of a file whose last commit changed the state. Distinct = (file, target, damage).",
             assumptions: &[
                 "single-process open of a copy; the other header and all data pages are intact",
                 "a checksum collision under random multi-byte damage (2^-64) is ignored",
@@ -310,7 +310,13 @@ fn shard(ctx: &ShardCtx, known: &Known) -> ShardOut {
     for hi in 0..nh {
         let strat = history(n_max + 2, 12, w, (1, 0, 0, 0));
         let mut hist = gen_one(&strat, mix(ctx.shard_seed("c12"), hi as u64));
-        hist.cfg = Cfg { pagesize: if (ctx.shard + hi) % 4 == 3 { 4096 } else { 1024 }, num_pages: 32, strict: false, populate: false };
+        hist.cfg = match (ctx.shard + hi) % 8 {
+            3 | 7 => Cfg { pagesize: 4096, num_pages: 32, strict: false, populate: false },
+            // a page size that does not divide the growth step, from a 4-page file: the file has
+            // grown by the first commits and its length is not a whole number of pages
+            5 => Cfg { pagesize: 5000, num_pages: 4, strict: false, populate: false },
+            _ => Cfg { pagesize: 1024, num_pages: 32, strict: false, populate: false },
+        };
         // pad to at least n_max transactions with simple state-changing ones
         while hist.txs.len() < n_max {
             let i = hist.txs.len();
